@@ -70,6 +70,292 @@ def equiv(case, impl_reply, model_reply):
     return case.op == "byrondec" and model_reply.startswith("err OracleMiss") and (impl_reply.startswith("ok") or impl_reply == "err Value")
 
 
+# ---- independent references (zlib / hashlib / pycryptodome only) for the Byron envelope and the Shelley address ----
+_B58 = "123456789ABCDEFGHJKLMNPQRSTUVWXYZabcdefghijkmnopqrstuvwxyz"
+
+
+def _b58(data):
+    num, out = int.from_bytes(data, "big"), ""
+    while num:
+        num, r = divmod(num, 58)
+        out = _B58[r] + out
+    return "1" * (len(data) - len(data.lstrip(b"\x00"))) + out
+
+
+def _cbor_head(major, n):
+    """RFC 8949 head of the shortest form"""
+    if n < 24:
+        return bytes([major << 5 | n])
+    for info, ln in ((24, 1), (25, 2), (26, 4), (27, 8)):
+        if n < 1 << (8 * ln):
+            return bytes([major << 5 | info]) + n.to_bytes(ln, "big")
+    raise ValueError(n)
+
+
+def _cbor_bytes(b):
+    return _cbor_head(2, len(b)) + b
+
+
+def _force_crc(pre, suf, target):
+    """the 4 bytes x with CRC-32(pre ++ x ++ suf) = target (CRC-32 is affine over GF(2) and a bijection of any 32 consecutive message bits:
+    Gaussian elimination over the 32 single-bit differences), computed with zlib"""
+    import zlib
+    c0 = zlib.crc32(pre + bytes(4) + suf)
+    basis = {}                       # leading bit -> (vector, combination of message bits)
+    for i in range(32):
+        v, comb = zlib.crc32(pre + (1 << i).to_bytes(4, "big") + suf) ^ c0, 1 << i
+        while v:
+            hb = v.bit_length() - 1
+            if hb not in basis:
+                basis[hb] = (v, comb)
+                break
+            v, comb = v ^ basis[hb][0], comb ^ basis[hb][1]
+    want, x = target ^ c0, 0
+    while want:
+        hb = want.bit_length() - 1
+        want, x = want ^ basis[hb][0], x ^ basis[hb][1]
+    xb = x.to_bytes(4, "big")
+    assert zlib.crc32(pre + xb + suf) == target
+    return xb
+
+
+def byron_address_with_crc(rng, crc, hd_enc=None):
+    """a well-formed Byron address [#6.24(bytes payload), crc] with payload = [28-byte root, {} or {1: bytes(bytes(encrypted path))}, 0],
+    built by hand, whose CRC-32 (zlib) is the GIVEN value: the last 4 bytes of the (otherwise random) root are solved for.
+    -> (address, root, payload)"""
+    import zlib
+    attrs = b"\xa0" if hd_enc is None else b"\xa1\x01" + _cbor_bytes(_cbor_bytes(hd_enc))
+    pre = b"\x83" + _cbor_head(2, 28) + bytes(rng.randrange(256) for _ in range(24))
+    suf = attrs + b"\x00"
+    x = _force_crc(pre, suf, crc)
+    payload = pre + x + suf
+    assert zlib.crc32(payload) == crc
+    raw = b"\x82\xd8\x18" + _cbor_bytes(payload) + _cbor_head(0, crc)
+    return _b58(raw), payload[3:31], payload
+
+
+def byron_encrypt_path(hd_key, path):
+    """the path attribute from its definition: ChaCha20-Poly1305 (nonce "serokellfore", no associated data) of the indefinite-length CBOR
+    array of the indexes, ciphertext ++ tag — with pycryptodome, not through bip_utils"""
+    from Crypto.Cipher import ChaCha20_Poly1305
+    plain = b"\x9f" + b"".join(_cbor_head(0, e) for e in path) + b"\xff"
+    ct, tag = ChaCha20_Poly1305.new(key=hd_key, nonce=b"serokellfore").encrypt_and_digest(plain)
+    return ct + tag
+
+
+# CRC values in every width class of the CBOR unsigned integer that carries them (and of a fixed-width 4-byte rendering): direct (< 24),
+# one byte, two bytes, four bytes with zero leading bytes, the top bit
+def crc_classes(rng):
+    fixed = [0, 1, 23, 24, 255, 256, 65535, 65536, 2**24 - 1, 2**24, 2**31 - 1, 2**31, 2**32 - 1]
+    rnd = [rng.randrange(24), rng.randrange(24, 256), rng.randrange(256, 65536), rng.randrange(65536, 2**24), rng.randrange(2**24, 2**32),
+           rng.randrange(256) << 24, rng.randrange(1, 256) << 16, rng.randrange(1, 256) << 8]
+    return fixed + rnd
+
+
+def byron_payload_crc(addr):
+    """CRC-32 (zlib) of the payload of a Byron address, located by hand: 82 d8 18 <bytes head> payload <crc item>"""
+    import zlib
+    from bip_utils import Base58Decoder
+    raw = Base58Decoder.Decode(addr)
+    if raw[:3] != b"\x82\xd8\x18":
+        return None
+    if raw[3] == 0x58:
+        ln, at = raw[4], 5
+    elif raw[3] == 0x59:
+        ln, at = int.from_bytes(raw[4:6], "big"), 6
+    elif 0x40 <= raw[3] < 0x58:
+        ln, at = raw[3] - 0x40, 4
+    else:
+        return None
+    return zlib.crc32(raw[at:at + ln])
+
+
+def byron_crc_cases(rng, tier):
+    """the CRC clause on the output-dependent classes: (a) hand-built addresses whose CRC is forced into every width class, plain and with a path
+    encrypted under a real wallet's key (decoded, and the path recovered by that wallet); (b) addresses the library's own encoders produce
+    whose CRC (recomputed with zlib) has a zero top byte — 1 in 256 — found by search: wallet index pairs, and Icarus / legacy encoder inputs"""
+    from bip_utils import AdaByronIcarusAddrEncoder, AdaByronLegacyAddrEncoder
+    quick = tier == "quick"
+    H = 2**31
+    for rnd in range(1 if quick else 8):
+        seed = bytes(rng.randrange(256) for _ in range(32))
+        w = CardanoByronLegacy.FromSeed(seed)
+        key = w.HdPathKey()
+        for crc in crc_classes(rng):
+            path = [H + rng.choice([0, 1, 23, 24, 255, 256, 65535, 65536, H - 1, rng.getrandbits(31)]) for _ in range(2)]
+            addr, _, _ = byron_address_with_crc(rng, crc, byron_encrypt_path(key, path))
+            yield Case("byrondec", [tx(addr)], "byron-crc-width-%d" % ((crc.bit_length() + 7) // 8))
+            yield Case("byronrecover", [hx(seed), tx(addr)], "byron-crc-width-%d-recover" % ((crc.bit_length() + 7) // 8))
+            addr, _, _ = byron_address_with_crc(rng, crc, None)
+            yield Case("byrondec", [tx(addr)], "byron-crc-width-%d" % ((crc.bit_length() + 7) // 8))
+    # (b) the library's own output
+    for rnd in range(1 if quick else 10):
+        seed = bytes(rng.randrange(256) for _ in range(32))
+        w = CardanoByronLegacy.FromSeed(seed)
+        f = rng.choice([0, 1, rng.getrandbits(31)])
+        s0, found = rng.getrandbits(30), 0
+        for s_ in range(s0, s0 + (1500 if quick else 6000)):
+            c = byron_payload_crc(w.GetAddress(f, s_))
+            if c is not None and c < 2**24:
+                yield Case("byronaddr", [hx(seed), f, s_], "byron-legacy-small-crc")
+                found += 1
+                if found == (2 if quick else 4):
+                    break
+        pub = w.GetPublicKey(f, s0)
+        found = 0
+        need = 4 if quick or rnd else 5          # thorough, first wallet: one more whose CRC has TWO zero top bytes (1 in 65536)
+        for _ in range(3000 if quick or rnd else 200000):
+            cc = rng.getrandbits(256).to_bytes(32, "big")
+            for shape, a in (("icarus", AdaByronIcarusAddrEncoder.EncodeKey(pub.KeyObject(), chain_code=cc)),
+                             ("legacy", AdaByronLegacyAddrEncoder.EncodeKey(pub.KeyObject(), chain_code=cc, hd_path="m/%d'/%d'" % (f, s0 % H), hd_path_key=w.HdPathKey()))):
+                c = byron_payload_crc(a)
+                if c is not None and (c < 2**24 if found < 4 else c < 2**16):
+                    yield Case("byrondec", [tx(a)], "byron-encoder-small-crc-%d" % ((c.bit_length() + 7) // 8))
+                    if shape == "legacy":
+                        yield Case("byronrecover", [hx(seed), tx(a)], "byron-encoder-small-crc-recover")
+                    found += 1
+            if found >= need:
+                break
+
+
+_B32 = "qpzry9x8gf2tvdw0s3jn54khce6mua7l"
+
+
+def _bech32(hrp, data):
+    """BIP-173 Bech32 of a byte string, from the published algorithm"""
+    acc, bits, d5 = 0, 0, []
+    for b in data:
+        acc, bits = (acc << 8) | b, bits + 8
+        while bits >= 5:
+            bits -= 5
+            d5.append((acc >> bits) & 31)
+    if bits:
+        d5.append((acc << (5 - bits)) & 31)
+    chk = 1
+    for v in [ord(c) >> 5 for c in hrp] + [0] + [ord(c) & 31 for c in hrp] + d5 + [0] * 6:
+        top = chk >> 25
+        chk = (chk & 0x1ffffff) << 5 ^ v
+        for i, g in enumerate((0x3b6a57b2, 0x26508e6d, 0x1ea119fa, 0x3d4233dd, 0x2a1462b3)):
+            if (top >> i) & 1:
+                chk ^= g
+    chk ^= 1
+    return hrp + "1" + "".join(_B32[x] for x in d5 + [(chk >> 5 * (5 - i)) & 31 for i in range(6)])
+
+
+def ref_shelley(testnet, pay_pub, stake_pub):
+    """(payment address, staking address) from the statement with hashlib only: header || Blake2b-224(payment key) || Blake2b-224(stake key)
+    under the network's prefix (CIP-19: type 0 / type 14 in the high nibble, network tag 1 = mainnet, 0 = testnet)"""
+    import hashlib
+    h = lambda b: hashlib.blake2b(b, digest_size=28).digest()   # noqa
+    tag = 0 if testnet else 1
+    return (_bech32("addr_test" if testnet else "addr", bytes([tag]) + h(pay_pub) + h(stake_pub)),
+            _bech32("stake_test" if testnet else "stake", bytes([0xE0 | tag]) + h(stake_pub)))
+
+
+def shelley_thread_relation(rng, tier, rep, rpt):
+    """A Shelley address is a function of the wallet's own two keys whatever else the process is doing: several wallets of the SAME coin
+    (different seeds, hence different stake keys), one per thread, keep computing their payment and staking addresses at the same time
+    (threads released together by a barrier, minimal switch interval, a fresh keys object per computation so that no memo answers), through
+    the wrapper built from the wallet's own objects and through the account -> change -> index route; every answer is compared with the
+    hashlib reference of that wallet's own keys (read before the threads start), and decoded back."""
+    import sys, threading, time
+    quick = tier == "quick"
+    n_threads, n_idx = 4, 3
+    slice_s = 0.45 if quick else 3.0
+    members = [c for c in Cip1852Coins]
+    n_calls = 0
+    for coin in members:
+        testnet = "TESTNET" in coin.name
+        tag = AdaShelleyAddrNetworkTags.TESTNET if testnet else AdaShelleyAddrNetworkTags.MAINNET
+        wallets = []
+        for t in range(n_threads):
+            seed = bytes(rng.randrange(256) for _ in range(32))
+            acc = Cip1852.FromSeed(seed, coin).Purpose().Coin().Account(rng.choice([0, 1, 5]))
+            sh_acc = CardanoShelley.FromCip1852Object(acc)
+            sk_obj = sh_acc.StakingObject()
+            stake_pub = acc.Bip32Object().ChildKey(2).ChildKey(0).PublicKey().RawCompressed().ToBytes()[1:]
+            chg = acc.Change(Bip44Changes.CHAIN_EXT)
+            items = []
+            for i in range(n_idx):
+                ao = chg.AddressIndex(i)
+                items.append((i, ao, ref_shelley(testnet, ao.PublicKey().RawCompressed().ToBytes()[1:], stake_pub)))
+            wallets.append({"seed": seed, "acc": acc, "sh_chg": sh_acc.Change(Bip44Changes.CHAIN_EXT), "sk": sk_obj, "items": items, "stake_pub": stake_pub})
+        # single-threaded first: the reference itself must be what the library answers when nothing else runs
+        for t, w in enumerate(wallets):
+            for i, ao, (want_a, want_s) in w["items"]:
+                pk = CardanoShelley(ao, w["sk"]).PublicKeys()
+                got = (pk.ToAddress(), pk.ToStakingAddress())
+                if got != (want_a, want_s):
+                    rep("Cip1852[%s]: the Shelley payment / staking address is not header || Blake2b-224(payment key) || Blake2b-224(stake key at account/2/0) "
+                        "under the network's prefix" % coin.name, "seed=%s address index %d" % (w["seed"].hex(), i), " ".join(got), want_a + " " + want_s)
+                    return
+        bar = threading.Barrier(n_threads)
+        stop = threading.Event()
+        found = []
+        calls = [0] * n_threads
+
+        def worker(t):
+            w = wallets[t]
+            try:
+                bar.wait(60)
+                end = time.monotonic() + slice_s
+                r = 0
+                while time.monotonic() < end and not stop.is_set():
+                    r += 1
+                    for i, ao, (want_a, want_s) in w["items"]:
+                        if r % 24 == 0:
+                            route, pk = "CardanoShelley.FromCip1852Object(account).Change(EXT).AddressIndex(%d).PublicKeys()" % i, \
+                                CardanoShelley.FromCip1852Object(w["acc"]).Change(Bip44Changes.CHAIN_EXT).AddressIndex(i).PublicKeys()
+                        elif r % 6 == 0:
+                            route, pk = "shared CardanoShelley change object .AddressIndex(%d).PublicKeys()" % i, w["sh_chg"].AddressIndex(i).PublicKeys()
+                        else:
+                            route, pk = "CardanoShelley(address object %d, staking object).PublicKeys()" % i, CardanoShelley(ao, w["sk"]).PublicKeys()
+                        got_a, got_s = pk.ToAddress(), pk.ToStakingAddress()
+                        calls[t] += 2
+                        if got_a != want_a or got_s != want_s:
+                            found.append((t, i, route, got_a, got_s, want_a, want_s))
+                            stop.set()
+                            return
+            except BaseException:  # noqa
+                bar.abort()
+                stop.set()
+                raise
+        old = sys.getswitchinterval()
+        sys.setswitchinterval(1e-6)
+        try:
+            ths = [threading.Thread(target=worker, args=(t,)) for t in range(n_threads)]
+            for th in ths:
+                th.start()
+            for th in ths:
+                th.join()
+        finally:
+            sys.setswitchinterval(old)
+        n_calls += sum(calls)
+        if bar.broken and not found:
+            raise RuntimeError("Shelley thread relation: a worker thread died")
+        if found:
+            t, i, route, got_a, got_s, want_a, want_s = found[0]
+            w = wallets[t]
+            detail = ""
+            try:
+                dec = AdaShelleyAddrDecoder.DecodeAddr(got_a, net_tag=tag)
+                import hashlib
+                for u, o in enumerate(wallets):
+                    if u != t and dec[28:] == hashlib.blake2b(o["stake_pub"], digest_size=28).digest():
+                        detail = " (the address decodes, and embeds the stake key hash of the wallet of thread %d, seed %s)" % (u, o["seed"].hex())
+            except Exception as ex:  # noqa
+                detail = " (the address does not decode: %s)" % type(ex).__name__
+            again = CardanoShelley(w["items"][i][1], w["sk"]).PublicKeys()
+            single = "; asked again single-threaded the same wallet answers %s" % ("the expected addresses" if (again.ToAddress(), again.ToStakingAddress()) == (want_a, want_s) else "wrongly too")
+            rep("Cip1852[%s]: a Shelley address computed while %d threads compute the addresses of their own wallets of the same coin is not "
+                "header || Blake2b-224(payment key) || Blake2b-224(stake key) of the wallet's own keys%s%s" % (coin.name, n_threads, detail, single),
+                "thread %d of %d, wallet seed=%s, %s; other wallets' seeds %s; switch interval 1e-6" % (
+                    t, n_threads, w["seed"].hex(), route, [o["seed"].hex() for u, o in enumerate(wallets) if u != t]),
+                got_a + " " + got_s, want_a + " " + want_s)
+            break
+    rpt.extra["shelley_threaded_address_computations"] = n_calls
+
+
 def gen(rng, tier):
     n = 30 if tier == "quick" else 1500
     for i in range(n):
@@ -149,6 +435,7 @@ def gen(rng, tier):
                 yield Case("kholawraw", [hx(kl.to_bytes(32, "little") + kr), hx(cc), nats([idx]), 0], "raw-parent-edge-public")
     from harness.props.c10 import byron_cases       # valid Byron addresses, their mutation stream, re-spelled checksum fields
     yield from byron_cases(rng, tier)
+    yield from byron_crc_cases(rng, tier)
     from harness.canon import kholaw_long_round_seeds
     for t, s in kholaw_long_round_seeds(rng, (6, 9, 11) if tier == "quick" else (6, 9, 10, 11, 12, 13, 14), 12000 if tier == "quick" else 120000):
         yield Case("kholawderive", ["kholaw", hx(s), nats([0x80000000, 1]), 2], "ledger-master-links-%d" % t)
@@ -309,6 +596,7 @@ def relations(rng, tier, rpt):
             rep("%s: the same path gives different nodes depending on the form it is given in" % KH[kind].__name__, "%s %s" % (seed.hex(), text),
                 "; ".join("%s -> %s" % (k, v[:48]) for k, v in outs.items()), "one node")
     rpt.extra["impl_relation_checks"] = n
+    shelley_thread_relation(rng, tier, rep, rpt)
     from harness.props.accessors_common import cardano_wrappers
     for what, inp, got, want in cardano_wrappers(rng):
         rep(what, inp, got, want)
